@@ -72,7 +72,8 @@ Theorem C16_relay_is_receive : forall s k c d a q, nth_error (chains s) (Z.to_na
 Proof. exact relay_step. Qed.
 
 (* ---- never more paid out than credited: per consumer and denom, after any history,
-   credited = still credited + paid to validators + paid to community pool + dust + forfeited, all >= 0 *)
+   credited = still credited + paid to validators + paid to community pool + dust + forfeited, all >= 0
+   (forfeited is identically 0 since fix 2504227: C16_lossless_partial) *)
 Theorem C16_no_overpay : forall s0 ops, initial s0 -> Forall wf_op ops -> forall c d,
   let m := pm (prov (run_ops s0 ops)) in
   get (c, d) (g_cred m) =
@@ -172,14 +173,33 @@ Definition C16_remainder_full : Prop := forall s0 ops, initial s0 -> Forall wf_o
 Theorem C16_remainder_refuted : ~ C16_remainder_full.
 Proof. exact remainder_refuted. Qed.
 
-(* "no tokens are lost": every credit is still credited or was paid out.  REFUTED twice: by the dust, and by the
-   zero-power branch, where a failing FundCommunityPool still consumes the credit (coins stay in the pool). *)
+(* "no tokens are lost": every credit is still credited or was paid out.  REFUTED by the dust only (known
+   finding C16-allocation-dust); the second way to lose a credit - a failing FundCommunityPool in the
+   zero-power branch - was fixed in /repo commit 2504227 and is now a positive theorem below. *)
 Definition C16_lossless_full : Prop := forall s0 ops, initial s0 -> Forall wf_op ops -> forall c d,
   let m := pm (prov (run_ops s0 ops)) in
   get (c, d) (g_cred m) = get (c, d) (alloc m) + get (c, d) (g_pv m) + get (c, d) (g_pc m).
 
 Theorem C16_lossless_refuted : ~ C16_lossless_full.
-Proof. exact lossless_refuted_forfeit. Qed.
+Proof. exact lossless_refuted. Qed.
+
+(* what holds: after any history no credit was dropped without payment, i.e. credited = still credited +
+   paid to validators + paid to the community pool + dust, exactly *)
+Theorem C16_lossless_partial : forall s0 ops, initial s0 -> forall c d,
+  let m := pm (prov (run_ops s0 ops)) in
+  get (c, d) (g_forf m) = 0 /\
+  get (c, d) (g_cred m) = get (c, d) (alloc m) + get (c, d) (g_pv m) + get (c, d) (g_pc m) + get (c, d) (g_dust m).
+Proof. exact no_forfeit. Qed.
+
+(* fix 2504227: with no eligible voting power, a FundCommunityPool that fails (injected fault, or the pool does
+   not hold the truncated credit) makes the allocation for that consumer and denom a no-op: credit, balances,
+   community pool and rewards are all unchanged *)
+Theorem C16_failed_community_funding_keeps_credit : forall env f c d m,
+  total_power (epochs f * bpe f) (b_h env) (lookup_list c (valsets f)) = 0 ->
+  let toSend := dtrunc_int (get (c, d) (alloc m)) in
+  (toSend <> 0 /\ memz d (b_fail_fund env) = true) \/ get (POOL, d) (bank m) < toSend ->
+  alloc_body env f c d m = None /\ alloc_one env f c m d = m.
+Proof. exact fund_failure_keeps_credit. Qed.
 
 Theorem C16_lossless_refuted_by_dust : exists s0 ops c d, initial s0 /\ Forall wf_op ops /\
   let m := pm (prov (run_ops s0 ops)) in
@@ -187,6 +207,19 @@ Theorem C16_lossless_refuted_by_dust : exists s0 ops c d, initial s0 /\ Forall w
 Proof. exact lossless_refuted_dust. Qed.
 
 (* ---- non-vacuity *)
+(* the history that used to forfeit the credit (no validators, FundCommunityPool failing): now the 1000 coins
+   stay credited; and the PRE-FIX model (alloc_body_prefix, not used by run) on the same state drops the credit *)
+Example C16_ex_no_forfeit :
+  let m := pm (prov (run_ops w_init w_forfeit_ops)) in
+  Forall wf_op w_forfeit_ops /\ get (0, 0) (alloc m) = 1000 * P /\ get (POOL, 0) (bank m) = 1000 /\ get (0, 0) (g_forf m) = 0.
+Proof. split; [exact w_forfeit_wf|]. vm_compute. repeat split; reflexivity. Qed.
+
+Example C16_ex_prefix_forfeit :
+  exists m', alloc_body_prefix (w_env 5 [0]) w_conf 0 0 w_forfeit_pre = Some m' /\
+    get (0, 0) (alloc w_forfeit_pre) = 1000 * P /\ get (0, 0) (alloc m') = 0 /\ get (0, 0) (g_forf m') = 1000 * P /\
+    get (POOL, 0) (bank m') = 1000 /\ cpool m' = cpool w_forfeit_pre /\ outst m' = outst w_forfeit_pre.
+Proof. exact w_forfeit_prefix_values. Qed.
+
 (* the dust witness: 3 validators of power 1, 10^6 coins: 3 * 333333.333333333333 recorded, 10^-12 coin of dust *)
 Example C16_ex_dust :
   let m := pm (prov (run_ops w_init w_dust_ops)) in
